@@ -24,7 +24,7 @@ CLAIMS = {
             'Contract-based P obligations where listed are discharged for all inputs; the program-shape quantifier is covered by a bounded stand-in (enumerated scope, labelled bounded, never counted as proved).',
             'Trusted: S1/S2/S3 specs, pyvc encoding, composition lemma (DESIGN §3.3); known findings are reported as KNOWN-FINDING lines.',
             'DESIGN §4 C06'),
-    "C09": ("other", "pyvc VCs on coordinate constant extraction + bounded end-to-end validation of the real pipeline's blueprint (S2 circuit model) against the S3 source semantics by SMT over all int32 inputs, on an enumerated scope of programs (multiset of user entities by prototype and top-left tile)",
+    "C09": ("other", "pyvc VCs on coordinate constant extraction, name resolution and EntityPlacer._place_user_entity (one placement, the user's prototype at the user's tile) + bounded end-to-end validation of the real pipeline's blueprint (S2 circuit model) against the S3 source semantics by SMT over all int32 inputs, on an enumerated scope of programs (multiset of user entities by prototype and top-left tile)",
             "Contract-based P obligations where listed are discharged for all inputs; the program-shape quantifier is covered by a bounded stand-in (enumerated scope, labelled bounded, never counted as proved).",
             "Trusted: S1/S2/S3 specs, pyvc encoding, composition lemma (DESIGN §3.3); known findings are reported as KNOWN-FINDING lines.",
             'DESIGN §4 C09'),
@@ -40,7 +40,7 @@ CLAIMS = {
             'Contract-based P obligations where listed are discharged for all inputs; the program-shape quantifier is covered by a bounded stand-in (enumerated scope, labelled bounded, never counted as proved).',
             'Trusted: S1/S2/S3 specs, pyvc encoding, composition lemma (DESIGN §3.3); known findings are reported as KNOWN-FINDING lines.',
             'DESIGN §4 C15'),
-    "C20": ("other", "bounded end-to-end validation of the real pipeline's blueprint (S2 circuit model) against the S3 source semantics by SMT over all int32 inputs, on an enumerated scope of programs (every S3 output name must have its anchor / labelled constant carrying exactly its value)",
+    "C20": ("other", "P contract on the real EntityPlacer.create_output_anchors (exactly the expected anchors, labelled and wired; finite name abstraction) + bounded end-to-end validation of the real pipeline's blueprint (S2 circuit model) against the S3 source semantics by SMT over all int32 inputs, on an enumerated scope of programs (every S3 output name must have its anchor / labelled constant carrying exactly its value)",
             "Contract-based P obligations where listed are discharged for all inputs; the program-shape quantifier is covered by a bounded stand-in (enumerated scope, labelled bounded, never counted as proved).",
             "Trusted: S1/S2/S3 specs, pyvc encoding, composition lemma (DESIGN §3.3); known findings are reported as KNOWN-FINDING lines.",
             'DESIGN §4 C20'),
